@@ -252,3 +252,13 @@ PROPS["C40"] = dict(
          "newline (otherwise the output does not parse); only emitter methods write the output.",
     note="That the emitted text declares the reported root type is not decided. Sanitisers are recognised semantically (functions "
          "returning String whose bodies mention the characters they must neutralise).")
+
+PROPS["C01"] = dict(
+    module="c01", func="run", level="other", crates=["emmylua_parser"],
+    technique="effect abstract interpretation of the marker protocol over MIR (least-fixpoint outcome sets per grammar function), who-may-call on the event vector",
+    text="Decides the structural conditions under which the event stream fed to the green-tree builder is balanced for every "
+         "input: marker primitives are level-exact (making both error-repair sites exact), all 150+ grammar functions are balanced on "
+         "every non-error path, leaking errors are only ever propagated to a repair site, the event vector is append-only, and "
+         "EOF is not an in-band character. Found the level leak of Marker::undo / empty complete (fixed) and the NUL sentinel (open finding).",
+    note="Not decided: that lexer token ranges tile the text, that trivia tokens are all forwarded, doc-lexer re-lexing ranges "
+         "(index arithmetic). Path feasibility uses Result-variant knowledge only. Trusted: rustc MIR, emmyfacts.")
